@@ -83,7 +83,11 @@ class C12(Prop):
 
         def get(nm):
             try:
-                return m.get_value(nm)
+                r = m.get_value(nm)
+                if r is None:
+                    v.bad('get_value-none', '%s [%s]: get_value(%r) returned None after the specification was evaluated' % (
+                        sd, kind, nm))
+                return r
             except Exception as e:
                 v.bad('get_value-raises:' + type(e).__name__, '%s [%s]: get_value(%r) raised %s: %s' % (
                     sd, kind, nm, type(e).__name__, e))
